@@ -110,7 +110,7 @@ def run(ctx: core.Ctx):
                        set(lay if not q else [s for s in lay if s[1] <= 8]))
     tasks += [C.case_null_space(m, n, timeout=300.0 if not q else 60.0) for m, n in ns_shapes]
     # ---- rref_and_basis_change whole function
-    rabc = [(m, n) for m in range(1, 4) for n in range(1, 4)] + ([(4, 4), (4, 3), (3, 4)] if q else [(4, 4), (4, 3), (3, 4), (5, 4), (4, 5), (5, 5)])
+    rabc = [(m, n) for m in range(1, 4) for n in range(1, 4)] + ([(4, 4), (4, 3), (3, 4)] if q else [(4, 4), (4, 3), (3, 4), (5, 4), (4, 5)])      # 5x5 and larger: z3 times out on M*Minv=I; bounded stand-in below
     tasks += [C.case_rabc(m, n, timeout=300.0 if not q else 60.0) for m, n in rabc]
     ctx.extra["shapes"] = {"rref_whole": small + val, "rref_loop_invariant": cut_shapes, "rank_modular": mod_shapes,
                            "null_space_modular": ns_shapes, "rref_and_basis_change": rabc, "mat_mul": mm,
@@ -213,6 +213,23 @@ def bounded(ctx):
             if not ok:
                 ctx.violate(fam3, f"pivots:{n}:{piv}:{tall}", f"{len(A)}x{n} matrix with pivot columns {list(piv)} violates the f2_algebra contracts",
                             {"args": [{"ndarray": A, "dtype": "int8"}], "pivots": list(piv)})
+    # rref_and_basis_change beyond the symbolically proved shapes
+    fam4 = ctx.family("C18.bounded.rref_and_basis_change_random", BOUNDED, "native", "R = rref(A), M*A = R, M*Minv = I, Minv*M = I on random matrices up to 12x12 (int8 and int64 input)")
+    fam4.exhaustive = False
+    for t in range(100 if ctx.quick else 1500):
+        m, n = int(rng.integers(1, 13)), int(rng.integers(1, 13))
+        A = (rng.random((m, n)) < rng.choice([0.2, 0.5, 0.8])).astype(np.int8 if t % 2 else np.int64)
+        A0 = A.copy()
+        try:
+            R, Mx, Minv = f2.rref_and_basis_change(A)
+            eye = np.eye(m, dtype=np.int64)
+            ok = np.array_equal(np.asarray(R) % 2, f2.rref(A0.copy())[0]) and np.array_equal((Mx.astype(np.int64) @ (A0.astype(np.int64) % 2)) % 2, np.asarray(R).astype(np.int64) % 2) \
+                and np.array_equal((Mx.astype(np.int64) @ Minv.astype(np.int64)) % 2, eye) and np.array_equal((Minv.astype(np.int64) @ Mx.astype(np.int64)) % 2, eye) and np.array_equal(A, A0)
+        except Exception:
+            ok = False
+        ctx.record(fam4, PROVED if ok else REFUTED, {"shape": [m, n]} if t < 2 else None)
+        if not ok:
+            ctx.violate(fam4, f"rabc:{m}x{n}:{A0.tobytes().hex()[:24]}", f"rref_and_basis_change on a random {m}x{n} matrix violates its contract", {"args": [{"ndarray": A0.tolist(), "dtype": str(A0.dtype)}]})
     # call histories: the same entries presented in another shape / dtype right after each other must not influence each other
     fam2 = ctx.family("C18.bounded.call_history", BOUNDED, "native", "contracts hold for each call of a sequence of calls on matrices sharing their flattened entries")
     fam2.exhaustive = False
